@@ -14,6 +14,19 @@ persistent tree reopens to the same contents and statistics (C16).
    page.
 3. Every recorded trace is validated by TLC against spec/z/TraceTree.tla: `bad` = C10/C16 as stated
    (observer = the abstract map), `drift` = the real pages differ from the page model.
+4. Growth of the backing buffer / file (the handful of reallocations in a tree's life, after which every
+   slice obtained before is stale): (a) TLC searches spec/z/TreeGoals.tla for one behaviour per coverage
+   goal - reallocation below the root, in the first / second page of a root split, a root split
+   reallocating after a reopen, a file extended again after it was reopened having been extended twice -
+   with the scaled minSize as part of the behaviour; they are replayed on real trees built with that
+   minSize ("scaled": the harness's copies of NewTree / Reset / NewTreePersistent with minSize replaced),
+   as are half of the simulated behaviours and a third of the small-page seeded histories, all with the
+   page structure and len/cap of t.data compared with the model; (b) a bulk family at the real minSize:
+   10^5 keys in ascending / descending / alternating / strided order with compact checkpoints (every
+   key's Get compared with its known value, every IterateKV callback classified, Stats; judged by
+   TraceTree.tla), memory- and file-backed, for seeded page sizes out of 80..272 step 16, 512, 4096
+   (thorough: all), and for the (page size, order, backing) combinations in which a count-level planner
+   in the harness predicts a root split that coincides with a reallocation (measured: field rsr).
 C10 drives memory-backed and some file-backed trees and reports the map clauses; C16 drives file-backed
 trees and reports the reopen clauses plus map clauses on reopened trees.
 """
